@@ -22,7 +22,9 @@ func (sc *Scope) call(e ECall) Val {
 	switch e.Fun {
 	case "old":
 		argN(1)
-		return sc.with(sc.old).eval(e.Args[0])
+		o := sc.with(sc.old)
+		o.header, o.phiOver = nil, nil // names denote their values at function entry
+		return o.eval(e.Args[0])
 	case "len":
 		argN(1)
 		v := sc.eval(e.Args[0])
